@@ -163,6 +163,12 @@ class ReverseLT(Generic[LT]):
     def __lt__(self, other: ReverseLT[LT]) -> bool:
         return other.key < self.key
 
+    def __eq__(self, other: object) -> bool:
+        # equal keys must compare equal for ties to be resolved by position
+        return isinstance(other, ReverseLT) and self.key == other.key
+
+    __hash__ = None  # type: ignore[assignment]
+
 
 # Python's heapq provides a *min*-heap
 # When finding the n largest items, heapq tracks the *minimum* item still large enough.
@@ -176,8 +182,9 @@ async def _largest(
 ) -> "list[T]":
     ordered: Callable[[LT], LT] = ReverseLT if reverse else lambda x: x  # type: ignore
     async with ScopedIter(iterable) as iterator:
-        # assign an ordering to items to solve ties
-        order_sign = -1 if reverse else 1
+        # assign an ordering to items to solve ties: earlier items win
+        # the worst item of the heap is the latest of the least fitting items
+        order_sign = -1
         n_heap = [
             (ordered(await key(item)), index * order_sign, item)
             async for index, item in a_zip(range(n), borrow(iterator))
